@@ -23,25 +23,34 @@ Lemma segs3 a1 a2 a3 a4 a5 b1 b2 b3 b4 b5 c1 c2 c3 c4 c5 :
   [(a1, a2, a3, a4, a5); (b1, b2, b3, b4, b5); (c1, c2, c3, c4, c5)].
 Proof. vm_compute. reflexivity. Qed.
 
-(* A: the generated trace is the hand model's segment list; the function is Stuck exactly when MOMO_ASSERT(splitItemIndex < itemCount) fails *)
+Lemma creates2 l1 c1 l2 c2 :
+  creates_list (ev_create (ev_create no_segs l1 c1) l2 c2) = [((if l1 then 1 else 0)%Z, c1); ((if l2 then 1 else 0)%Z, c2)].
+Proof. destruct l1, l2; vm_compute; reflexivity. Qed.
+
+(* the counts the two new nodes are created with (Relocator::CreateNode(isLeaf, count)) *)
+Definition hand_counts (c s cnt : nat) : nat * nat := if c <=? s then (s + 1, cnt - s - 1) else (s, cnt - s).
+
+(* A: the generated trace is the hand model's segment list, the two CreateNode calls ask for exactly the sizes of the two halves; the
+   function is Stuck exactly when MOMO_ASSERT(splitItemIndex < itemCount) fails *)
 Theorem gen_split_trace node n1 n2 leaf (c s cnt : nat) :
   s < cnt -> c <= cnt -> cnt <= 255 ->
-  exists tr, Gen_Split.pvSplitNode no_segs node (Z.of_nat c) leaf (Z.of_nat cnt) (Z.of_nat s) n1 n2 = Ok (tt, tr) /\
-    segs_list tr = map (zseg node n1 n2) (hand_segs c s cnt).
+  exists tr cr, Gen_Split.pvSplitNode no_segs no_segs node (Z.of_nat c) leaf (Z.of_nat cnt) (Z.of_nat s) n1 n2 = Ok (tt, tr, cr) /\
+    segs_list tr = map (zseg node n1 n2) (hand_segs c s cnt) /\
+    creates_list cr = [((if leaf then 1 else 0)%Z, Z.of_nat (fst (hand_counts c s cnt))); ((if leaf then 1 else 0)%Z, Z.of_nat (snd (hand_counts c s cnt)))].
 Proof.
-  intros H1 H2 H3. unfold Gen_Split.pvSplitNode, hand_segs.
+  intros H1 H2 H3. unfold Gen_Split.pvSplitNode, hand_segs, hand_counts.
   replace (Z.of_nat s <? Z.of_nat cnt)%Z with true by (symmetry; apply Z.ltb_lt; lia). cbv iota.
   destruct (Nat.leb_spec c s) as [L|L].
   - replace (Z.of_nat c <=? Z.of_nat s)%Z with true by (symmetry; apply Z.leb_le; lia). cbv iota.
     assert (Q : (0 <= Z.of_nat cnt - Z.of_nat s < 1000)%Z) by lia. rewrite (w64' _ Q). rewrite !w64' by lia.
-    eexists. split; [reflexivity|]. rewrite segs3. cbn [map zseg Nat.eqb]. repeat f_equal; lia.
+    eexists. eexists. split; [reflexivity|]. rewrite segs3, creates2. cbn [map zseg Nat.eqb fst snd]. split; repeat f_equal; lia.
   - replace (Z.of_nat c <=? Z.of_nat s)%Z with false by (symmetry; apply Z.leb_gt; lia). cbv iota.
     assert (Q : (0 <= Z.of_nat c - Z.of_nat s < 1000)%Z) by lia. rewrite (w64' _ Q). rewrite !w64' by lia.
-    eexists. split; [reflexivity|]. rewrite segs3. cbn [map zseg Nat.eqb]. repeat f_equal; lia.
+    eexists. eexists. split; [reflexivity|]. rewrite segs3, creates2. cbn [map zseg Nat.eqb fst snd]. split; repeat f_equal; lia.
 Qed.
 
-Theorem gen_split_stuck node n1 n2 leaf c s cnt tr0 :
-  (s >= cnt)%Z -> Gen_Split.pvSplitNode tr0 node c leaf cnt s n1 n2 = Stuck.
+Theorem gen_split_stuck node n1 n2 leaf c s cnt tr0 cr0 :
+  (s >= cnt)%Z -> Gen_Split.pvSplitNode tr0 cr0 node c leaf cnt s n1 n2 = Stuck.
 Proof. intros H. unfold Gen_Split.pvSplitNode. replace (s <? cnt)%Z with false by (symmetry; apply Z.ltb_ge; lia). reflexivity. Qed.
 
 (* B: the hand split IS the replay of those segments: every destination node receives its segments in order, the new item x fills
@@ -61,4 +70,15 @@ Proof.
     rewrite ?app_nil_r. cbn [app]. replace (s + 1) with (S s) by lia. auto.
   - replace (c - s =? S (c - s - 1)) with true by (symmetry; apply Nat.eqb_eq; lia).
     rewrite ?app_nil_r. cbn [app]. replace (s + 1) with (S s) by lia. auto.
+Qed.
+
+(* the hand split's two item lists have exactly the sizes the real code creates the nodes with *)
+Theorem hand_split_sizes (ks : list Z) cs sub c s x :
+  s < length ks -> c <= length ks ->
+  let '((ks1, _), _, (ks2, _)) := split_parts ks cs sub (length ks) c s x in
+  length ks1 = fst (hand_counts c s (length ks)) /\ length ks2 = snd (hand_counts c s (length ks)).
+Proof.
+  intros H1 H2. unfold split_parts, hand_counts, seg. destruct (Nat.leb_spec c s) as [L|L]; cbn [fst snd].
+  - rewrite !app_length. cbn [length]. rewrite !firstn_length, !skipn_length. lia.
+  - rewrite !app_length. cbn [length]. rewrite !firstn_length, !skipn_length. lia.
 Qed.
